@@ -79,6 +79,9 @@ def apply_edit(pkg: M.Package, rng: Rng, kind: str, only=None, only_steps=None):
     recs = _records(pkg)
     if only is not None:
         recs = [r for r in recs if r.name in only]
+    else:
+        # records that the caller edits itself, and in one way only (with_versions: reorder_only)
+        recs = [r for r in recs if r.name not in getattr(pkg, "hands_off", ())]
     if kind == "add_optional_field" and recs:
         r = rng.choice(recs)
         n = _fresh_member([f for f, _ in r.fields], rng)
@@ -406,6 +409,8 @@ def evolve(pkg: M.Package, rng: Rng, n: int, kinds) -> tuple:
     """Deep copy of pkg with n edits drawn from kinds applied. Returns (new pkg, [descriptions])."""
     new = copy.deepcopy(pkg)
     new.render_seed = pkg.render_seed
+    if hasattr(pkg, "hands_off"):
+        new.hands_off = tuple(pkg.hands_off)
     log = []
     tries = 0
     while len(log) < n and tries < n * 6:
@@ -419,10 +424,13 @@ def evolve(pkg: M.Package, rng: Rng, n: int, kinds) -> tuple:
 RECORD_EDITS = ["add_optional_field", "remove_optional_field", "reorder_fields", "add_field", "remove_field", "widen_field", "make_optional", "widen_vector_field", "make_required"]
 
 
-def with_versions(pkg: M.Package, rng: Rng, n_versions: int, partial: bool, must_edit=(), order="oldest_first", p_new_protocol=0.0, layout="siblings", widen_steps=(), widen_aliases=(), union_steps=(), to_union_steps=(), tail_records=(), fixed_vector_records=()) -> M.Package:
+def with_versions(pkg: M.Package, rng: Rng, n_versions: int, partial: bool, must_edit=(), order="oldest_first", p_new_protocol=0.0, layout="siblings", widen_steps=(), widen_aliases=(), union_steps=(), to_union_steps=(), tail_records=(), fixed_vector_records=(), reorder_only=()) -> M.Package:
     """Treat pkg as the oldest version; evolve it n_versions times; the newest package lists all
     its predecessors under `versions:`.  Returns the newest package.
-    must_edit: names of records that each get at least one record edit in every evolution step."""
+    must_edit: names of records that each get at least one record edit in every evolution step.
+    reorder_only: names of records whose fields are put into another order now and then and that no other edit touches."""
+    if reorder_only:
+        pkg.hands_off = tuple(reorder_only)
     chain = [pkg]
     kinds = COMPATIBLE + (PARTIAL if partial else [])
     cur = pkg
@@ -465,6 +473,12 @@ def with_versions(pkg: M.Package, rng: Rng, n_versions: int, partial: bool, must
             d = apply_edit(cur, r8, "add_fixed_vector_field", only=tuple(fixed_vector_records))
             if d:
                 l.append(d)
+        r9 = rng.fork("reorderonly", i)
+        for name in reorder_only:
+            if r9.chance(0.6):
+                d = apply_edit(cur, r9, "reorder_fields", only=(name,))
+                if d:
+                    l.append(d)
         r7 = rng.fork("tail", i)
         if partial and tail_records and r7.chance(0.6):
             d = apply_edit(cur, r7, "remove_last_field", only=tuple(tail_records))
